@@ -245,5 +245,89 @@ func genGluelayer() {
 		l.defStrList("renderDocCalls", calls)
 		hashFn("pkg/sbom/generator/spdx/spdx.go", "renderDoc")
 	}
+
+	// --- pkg/build/sbom.go: where GenerateImageSBOM takes every input of the generator from ---
+	if f := load("pkg/build/sbom.go"); f != nil {
+		var inputs []string
+		pkgsExpr := ""
+		if fd := f.fn("Context.GenerateImageSBOM"); fd != nil {
+			inputs, pkgsExpr = gluelayerSbomInputs(f, fd)
+		} else {
+			gluelayerProblem([]string{"C11"}, "sbom.go: func Context.GenerateImageSBOM not found")
+		}
+		if pkgsExpr == "" {
+			gluelayerProblem([]string{"C11"}, "sbom.go: no assignment to s.Packages in GenerateImageSBOM")
+		}
+		l.defStrList("sbomImageInputs", inputs)
+		hashFn("pkg/apk/apk/installed.go", "APK.GetInstalled")
+		l.defStr("sbomPackagesExpr", pkgsExpr)
+	}
 	l.write()
+}
+
+// gluelayerSbomInputs lists, in source order, every assignment to a field of the generator options `s` in
+// GenerateImageSBOM as `lhs = rhs` and, where rhs starts with a local variable, ` <- ` the expression that variable was
+// defined by (`v, err := expr`); the options themselves as `s := expr`; and the file system handed to the generators.
+// pkgsExpr is the defining expression behind `s.Packages` (rhs itself when it is not a local variable).
+func gluelayerSbomInputs(f *File, fd *ast.FuncDecl) (inputs []string, pkgsExpr string) {
+	defs := map[string]string{}
+	root := func(e ast.Expr) string {
+		for {
+			switch x := e.(type) {
+			case *ast.Ident:
+				return x.Name
+			case *ast.SelectorExpr:
+				e = x.X
+			case *ast.CallExpr:
+				e = x.Fun
+			case *ast.IndexExpr:
+				e = x.X
+			case *ast.StarExpr:
+				e = x.X
+			case *ast.UnaryExpr:
+				e = x.X
+			case *ast.ParenExpr:
+				e = x.X
+			default:
+				return ""
+			}
+		}
+	}
+	ast.Inspect(fd.Body, func(n ast.Node) bool {
+		switch x := n.(type) {
+		case *ast.AssignStmt:
+			if len(x.Rhs) != 1 {
+				return true
+			}
+			rhs := f.src(x.Rhs[0])
+			for i, lh := range x.Lhs {
+				id, isIdent := lh.(*ast.Ident)
+				if isIdent && i == 0 && id.Name != "_" {
+					// every definition or re-assignment of a local counts: the last one before the use is what flows
+					if id.Name == "s" {
+						inputs = append(inputs, "s := "+rhs)
+					}
+					defs[id.Name] = rhs
+				}
+				if sel, ok := lh.(*ast.SelectorExpr); ok && root(sel) == "s" {
+					line := f.src(lh) + " = " + rhs
+					def := rhs
+					if d, ok := defs[root(x.Rhs[0])]; ok {
+						line += " <- " + d
+						def = d
+					}
+					inputs = append(inputs, line)
+					if f.src(lh) == "s.Packages" {
+						pkgsExpr = def
+					}
+				}
+			}
+		case *ast.CallExpr:
+			if c := f.src(x.Fun); c == "generator.Generators" {
+				inputs = append(inputs, f.src(x))
+			}
+		}
+		return true
+	})
+	return
 }
